@@ -67,11 +67,13 @@ def judge(ctx, execs, tally):
 
 
 def main(tier):
+    from . import c02
     return sweep.run_lp_check(
         PID, LEVEL, tier, judge,
         "every instance x option vector of the families; every optimal class at "
         "the last solve (for no criterion: every feasible 0/1 point); non-trivial "
         "= item where the back end may return more than one distinct matching",
+        interleave_opts=c02.INTERLEAVE_OPTS,
         vacuity=lambda t: None if t.c.get("reported_matchings") else "no matching reported")
 
 
